@@ -1419,6 +1419,14 @@ fn main() {
         let small = zi % 4 == 0;
         let cfg = gen_cfg(&mut rng, small);
         let mut z = refzone::gen_zone(&mut rng, &cfg);
+        if zi % 30 == 11 {
+            // a zone that consists of its apex only: the NSEC3 chain is one record pointing to itself
+            let others: Vec<refzone::Name> = z.owners().filter(|o| **o != z.apex).cloned().collect();
+            for o in others {
+                z.remove_name(&o);
+            }
+            r.rep.count("apex_only_zones");
+        }
         let p = gen_params(&mut rng);
         if p.opt_out && rng.chance(2, 3) {
             add_insecure_delegations(&mut rng, &mut z);
